@@ -8,12 +8,15 @@ import re
 from . import common
 from . import pure
 
-PROOFS = ["proofs/WaitCloseProofs.v", "proofs/WaitCloseInv.v", "models/WaitClose.v"]
+PROOFS = ["proofs/WaitCloseProofs.v", "proofs/WaitCloseInv.v", "proofs/WaitCloseHarness.v", "models/WaitClose.v"]
 
 # K0 Close(nil); Kn/Ke/Kp callback returns nil / error / panics; KN/KE/KP the same, blocking
 # for a while (one yield in the middle); C = C(); I = IsClosed()
 OPS = ["K0", "Kn", "Ke", "Kp", "KN", "KE", "KP", "C", "I"]
 CLOSE_OPS = [o for o in OPS if o[0] == "K"]
+# W = WaitUtil(1 hour) as a stepped operation: its wait is a step of its own (the goroutine is found parked inside
+# the select = model pc WWait; a later step returns true once a close woke it up, is "blocked" otherwise)
+OPS_W = OPS + ["W"]
 
 
 def build_coop(chk):
@@ -54,14 +57,14 @@ def enum_many(prog_list, mode, mx):
     return res
 
 
-def rand_prog(rng, maxops, close_bias=True):
+def rand_prog(rng, maxops, close_bias=True, ops=OPS):
     n = rng.range(1, maxops)
     p = []
     for _ in range(n):
         if close_bias and rng.chance(1, 2):
             p.append(rng.choice(CLOSE_OPS))
         else:
-            p.append(rng.choice(OPS))
+            p.append(rng.choice(ops))
     return p
 
 
@@ -80,34 +83,58 @@ def random_schedule(rng, nthreads, length):
 
 
 # ------------------------------------------------------------------ trace parsing
+def _obs(x):
+    parts = x.split("/")
+    if len(parts) != 3:
+        return (x, "", "")
+    return tuple(parts)
+
+
+def _obs_auto(x):
+    """'<obs>+<tid>:<obs>...' -> (obs, [(tid, obs)]): the automatic steps (a thread that was inside Lock() took the
+    mutex released in this step) follow the step they are appended to"""
+    parts = x.split("+")
+    autos = []
+    for p in parts[1:]:
+        t, _, o = p.partition(":")
+        autos.append((int(t) if t.isdigit() else -1, _obs(o)))
+    return _obs(parts[0]), autos
+
+
 def parse_out(line):
-    """-> dict(steps=[(ev, marks, bits)], fin=[(tid,(ev,marks,bits))], end=bool|None, bad=str|None)"""
+    """-> dict(steps=[(ev, marks, bits)], autos=[[(tid, obs)] per step], fin=[(tid,(ev,marks,bits))] (automatic steps
+    inlined), waiting=[tid], rel=[(tid, obs)], end=bool|None, bad=str|None)"""
     if not line.startswith("steps="):
         return None
-    d = dict(steps=[], fin=[], end=None, bad=None)
+    d = dict(steps=[], autos=[], fin=[], waiting=[], rel=[], end=None, bad=None)
     for key in ("HANG", "LIVELOCK", "DEADLOCK"):
         if line.endswith(" " + key):
             d["bad"] = key
-
-    def obs(x):
-        parts = x.split("/")
-        if len(parts) != 3:
-            return (x, "", "")
-        return tuple(parts)
     for tok in line.split(" "):
         if tok.startswith("steps="):
-            d["steps"] = [obs(x) for x in tok[6:].split(",") if x]
-        elif tok.startswith("fin="):
-            d["fin"] = [(int(x.split(":", 1)[0]), obs(x.split(":", 1)[1])) for x in tok[4:].split(",") if x]
+            for x in tok[6:].split(","):
+                if x:
+                    o, a = _obs_auto(x)
+                    d["steps"].append(o)
+                    d["autos"].append(a)
+        elif tok.startswith("fin=") or tok.startswith("rel="):
+            for x in tok[4:].split(","):
+                if x:
+                    o, a = _obs_auto(x.split(":", 1)[1])
+                    d[tok[:3]].append((int(x.split(":", 1)[0]), o))
+                    d[tok[:3]] += a
+        elif tok.startswith("waiting="):
+            d["waiting"] = [int(x) for x in tok[8:].split(",") if x]
         elif tok.startswith("end="):
             d["end"] = tok[4:] == "true"
     return d
 
 
 def case_fields(case):
+    """-> programs, schedule (thread ids; the f of a forced item dropped), raw key/value map"""
     m = dict(t.split("=", 1) for t in case.split()[1:] if "=" in t)
     progs = [[o for o in p.split(".") if o] for p in m.get("progs", "").split(";")]
-    sched = [int(x) for x in m.get("sched", "").split(",") if x]
+    sched = [int(x.lstrip("f")) for x in m.get("sched", "").split(",") if x]
     return progs, sched, m
 
 
@@ -121,23 +148,46 @@ def monitor(case, impl):
     if out["bad"]:
         return (out["bad"].lower(), "threads did not finish: " + out["bad"])
     progs, sched, _ = case_fields(case)
-    seq = list(zip(sched, out["steps"])) + out["fin"]
+    seq = []
+    for tid, o, autos in zip(sched, out["steps"], out["autos"]):
+        seq.append((tid, o))
+        seq += autos
+    seq += out["fin"]
+    n_before_release = len(seq)
+    seq += out["rel"]            # after the harness's own final Close(nil) returned
     nxt = [0] * len(progs)       # index of the op a thread is in / will invoke next
     inside = [False] * len(progs)
+    insel = [False] * len(progs)  # inside WaitUtil's wait (parked in its select)
     starts = ends = 0
     close_returned = False
+    close_invoked = False
     any_close = False
     for idx, (tid, (ev, marks, bits)) in enumerate(seq):
+        if idx == n_before_release:
+            close_returned = True
+        if 0 <= tid < len(progs):
+            # "WaitUtil returns true iff the close happens before its timeout": the timeout of these calls is one hour,
+            # so a call that is (still) waiting once a Close has returned contradicts it
+            if ev == "yW":
+                insel[tid] = True
+            if close_returned and insel[tid] and ev in ("yW", "blocked"):
+                return ("waitutil-waiting-after-close",
+                        "step %d: WaitUtil(1h) of thread %d %s although a Close has returned: it waits on something that is not "
+                        "the closed channel" % (idx, tid, "begins to wait" if ev == "yW" else "is still waiting"))
+            if ev.startswith("r:"):
+                insel[tid] = False
         if ev.startswith("panic") or ev.startswith("PANIC"):
             return ("escaped-panic", "step %d: a panic escaped from the call of thread %d: %s" % (idx, tid, ev))
         if ev.startswith("y?"):
             return ("unknown-site", "step %d: unknown yield site %s" % (idx, ev))
         op = None
-        if tid < len(progs) and ev not in ("done", "blocked"):
+        if 0 <= tid < len(progs) and ev not in ("done", "blocked"):
             if not inside[tid] and nxt[tid] < len(progs[tid]):
                 inside[tid] = True
             if inside[tid]:
                 op = progs[tid][nxt[tid]]
+                if op[0] == "K":
+                    close_invoked = True
         for mk in marks:
             if mk == "s":
                 starts += 1
@@ -160,6 +210,12 @@ def monitor(case, impl):
             elif op == "C":
                 if ev == "r:cnil":
                     return ("c-returned-nil", "step %d: C() returned nil" % idx)
+            elif op == "W":
+                if ev != "r:true":
+                    return ("waitutil-false-without-timeout",
+                            "step %d: WaitUtil(1h) of thread %d returned %s: its timeout cannot have expired" % (idx, tid, ev))
+                if not close_invoked and idx < n_before_release:
+                    return ("waitutil-true-before-close", "step %d: WaitUtil of thread %d returned true before any Close call began" % (idx, tid))
             inside[tid] = False
             nxt[tid] += 1
         if close_returned and "0" in bits:
@@ -292,6 +348,89 @@ def gen(chk, tier):
         rd.append(case_line(progs, random_schedule(rng, nt, rng.range(4, 7 * total))))
     streams.append(("random-bursty-4-5", rd))
     chk.cov["states"] = nst
+    return streams + gen_wait_forced(chk, tier)
+
+
+# programs with WaitUtil on a zero-value object and on one already initialised by C(), against C / Close / WaitUtil
+FIXED_WAIT_2X2 = [
+    [["W"], ["C", "K0"]], [["W"], ["C", "KN"]], [["W"], ["K0", "C"]], [["C", "W"], ["K0"]], [["C", "W"], ["KN"]],
+    [["W", "I"], ["Kp"]], [["W", "W"], ["C", "Ke"]], [["W", "C"], ["KE", "W"]], [["K0", "W"], ["W"]],
+    [["C", "W"], ["C", "KP"]], [["I", "W"], ["C", "K0"]], [["W", "K0"], ["W", "C"]], [["W"], ["W", "Kn"]],
+]
+FIXED_WAIT_3 = [
+    [["W"], ["C"], ["K0"]], [["W"], ["C"], ["KN"]], [["W"], ["W"], ["Kn"]], [["C", "W"], ["W"], ["KP", "I"]],
+    [["W", "I"], ["C", "W"], ["Ke"]], [["W"], ["K0"], ["K0"]],
+]
+# a lock waiter released while the mutex is held: by the lazy initialisation of C()/WaitUtil, by a Close before /
+# inside / after its callback; followed by IsClosed / C() / WaitUtil so that an early return is visible
+FIXED_FORCED = [
+    [["C", "KN"], ["K0", "I"]], [["C", "KE"], ["Kn", "C"]], [["C"], ["K0", "I"]], [["W"], ["K0", "I"]], [["C"], ["Kn", "W"]],
+    [["KN", "I"], ["K0", "I"]], [["KP"], ["Kn", "I"]], [["K0"], ["K0", "I"]], [["Kn"], ["C", "I"]], [["KN"], ["W", "I"]],
+    [["C", "K0"], ["C", "I"]], [["W", "K0"], ["W", "I"]], [["C"], ["K0"], ["I", "C"]], [["KN"], ["K0"], ["Kn", "I"]],
+    [["C"], ["W"], ["KN", "I"]], [["KE"], ["C"], ["W"]],
+]
+
+
+def has_wait_and_close(progs):
+    ops = [o for p in progs for o in p]
+    return "W" in ops and any(o[0] == "K" for o in ops)
+
+
+def gen_wait_forced(chk, tier):
+    """WaitUtil as a stepped operation, and lock waiters that are really inside Lock() while the mutex is held."""
+    rng = chk.rng.fork()
+    quick = tier == "quick"
+    streams = []
+    # (e) every interleaving of 2 threads x 1 call where a WaitUtil is involved (19 pairs)
+    pl = [[[a], [b]] for a in OPS_W for b in OPS_W if "W" in (a, b)]
+    ex = []
+    for progs, (_, scheds) in zip(pl, enum_many(pl, "all", 1000000)):
+        ex += ["c16 progs=%s sched=%s" % (prog_str(progs), s) for s in scheds]
+    streams.append(("exhaustive-2x1-wait", ex))
+    # (f) every interleaving (capped) of 2 threads x 1-2 calls: zero-value and C()-initialised object, WaitUtil against C/Close/WaitUtil
+    pl = list(FIXED_WAIT_2X2)
+    while len(pl) < len(FIXED_WAIT_2X2) + (12 if quick else 600):
+        progs = [rand_prog(rng, 2, ops=OPS_W), rand_prog(rng, 2, ops=OPS_W)]
+        if has_wait_and_close(progs):
+            pl.append(progs)
+    ex2 = []
+    for progs, (_, scheds) in zip(pl, enum_many(pl, "all", 700 if quick else 200000)):
+        ex2 += ["c16 progs=%s sched=%s" % (prog_str(progs), s) for s in scheds]
+    streams.append(("exhaustive-2x2-wait", ex2))
+    # (g) one schedule per (reachable model state, thread) edge, 3 threads
+    pl = list(FIXED_WAIT_3)
+    while len(pl) < len(FIXED_WAIT_3) + (8 if quick else 300):
+        progs = [rand_prog(rng, 2, ops=OPS_W) for _ in range(3)]
+        if has_wait_and_close(progs):
+            pl.append(progs)
+    ed = []
+    for progs, (n, scheds) in zip(pl, enum_many(pl, "edges", 700 if quick else 60000)):
+        ed += ["c16 progs=%s sched=%s" % (prog_str(progs), s) for s in scheds]
+    streams.append(("state-edge-cover-3-wait", ed))
+    # (h) for every reachable model state and every thread parked before the held mutex there: the path to the state,
+    #     then that thread FORCED (its goroutine goes into the real Lock()), then (1) the round-robin completion,
+    #     (2) random continuations
+    pl = [[[a], [b]] for a in OPS_W for b in OPS_W] + list(FIXED_FORCED)
+    for _ in range(10 if quick else 400):
+        pl.append([rand_prog(rng, 2, ops=OPS_W) for _ in range(rng.choice([2, 3]))])
+    fo = []
+    for progs, (n, scheds) in zip(pl, enum_many(pl, "forced", 400 if quick else 20000)):
+        total = sum(len(p) for p in progs)
+        for s in scheds:
+            fo.append("c16 progs=%s sched=%s" % (prog_str(progs), s))
+            for _ in range(1 if quick else 3):
+                tail = random_schedule(rng, len(progs), rng.range(2, 6 * total))
+                fo.append("c16 progs=%s sched=%s,%s" % (prog_str(progs), s, ",".join(map(str, tail))))
+    streams.append(("forced-lock-waiter", fo))
+    # (i) random bursty schedules with WaitUtil in the alphabet and forced items sprinkled in
+    rd = []
+    for _ in range(500 if quick else 50000):
+        nt = rng.choice([3, 4, 5])
+        progs = [rand_prog(rng, 3, ops=OPS_W) for _ in range(nt)]
+        total = sum(len(p) for p in progs)
+        sched = [("f%d" % t) if rng.chance(1, 4) else str(t) for t in random_schedule(rng, nt, rng.range(4, 7 * total))]
+        rd.append("c16 progs=%s sched=%s" % (prog_str(progs), ",".join(sched)))
+    streams.append(("random-bursty-wait-forced", rd))
     return streams
 
 
@@ -405,7 +544,7 @@ def run_wait_ft_stream(chk, tier):
 # ------------------------------------------------------------------ vm_compute cross-check
 OPCOQ = {"K0": "OpClose CbNone", "Kn": "OpClose (Cb ONil false)", "Ke": "OpClose (Cb OErr false)",
          "Kp": "OpClose (Cb OPanic false)", "KN": "OpClose (Cb ONil true)", "KE": "OpClose (Cb OErr true)",
-         "KP": "OpClose (Cb OPanic true)", "C": "OpC", "I": "OpIsClosed"}
+         "KP": "OpClose (Cb OPanic true)", "C": "OpC", "I": "OpIsClosed", "W": "OpWait"}
 
 
 def ev_code(ev):
@@ -457,7 +596,7 @@ Fixpoint wc_obs_go (s : wc_state) (chans : list wc_chan) (sched : list wc_item) 
   match sched with
   | [] => []
   | it :: r =>
-      let '(s1, acts) := wc_step s it in
+      let '(s1, acts) := wc_hstep s it in
       let chans1 := add_chans chans acts in
       (ev_code s1 (wc_item_tid it) acts, mark_code acts,
        100 * Z.of_nat (length chans1) + Z.of_nat (length (filter (wc_closedb (wc_sh s1)) chans1)))
@@ -541,7 +680,8 @@ def run(chk):
             chk.infra_errors.append("canary run failed: %r" % (ex,))
         try:
             sample = streams[1][1][::max(1, len(streams[1][1]) // 50)][:50] + streams[2][1][::max(1, len(streams[2][1]) // 50)][:50] \
-                + streams[3][1][:30] + streams[4][1][:30]
+                + streams[3][1][:30] + streams[4][1][:30] + streams[5][1][::max(1, len(streams[5][1]) // 30)][:30] \
+                + streams[6][1][::max(1, len(streams[6][1]) // 30)][:30]
             mo = common.run_model(sample)
             chk.cov["vm_compute_crosschecked"] = coq_crosscheck(chk, sample, mo)
         except Exception as ex:
